@@ -317,6 +317,9 @@ func Run(r *mc.Run) {
 	for _, f := range gen.D822FieldShapes("A", r.Pick(2, 3)) {
 		single = append(single, gen.DDoc{gen.DPara{f}})
 	}
+	for _, f := range gen.D822AuditFields() { // alphabet audit
+		single = append(single, gen.DDoc{gen.DPara{f}}, gen.DDoc{gen.DPara{{Name: "B-c", First: "w"}, f}, gen.DPara{f}})
+	}
 	var paras []gen.DPara
 	ra, rb, rx := gen.D822RepFields("A"), gen.D822RepFields("B-c"), gen.D822RepFields("Long-Name9")
 	for _, a := range ra {
@@ -438,7 +441,7 @@ func Run(r *mc.Run) {
 	})
 
 	// invariant on arbitrary input
-	sigma := []string{"A", ":", " ", "\n", "#", ".", "\r", "\t"}
+	sigma := append([]string{"A", ":", " ", "\n", "#", ".", "\r", "\t"}, gen.AuditChars(nil, 2)...)
 	L := r.Pick(7, 9)
 	ns := len(sigma)
 	r.Scenario("invariant-all-strings", map[string]interface{}{"alphabet": "A : space \\n # . \\r \\t", "max_len": L}, ns*ns+1, func(sh int, st *mc.Stats) bool {
